@@ -75,6 +75,9 @@ type WOp struct {
 	Back int `json:"back,omitempty"`
 	// Bulk adds N updates At/k<Start>..At/k<Start+N-1>[/Leaf] with value V.
 	Bulk *Bulk `json:"bulk,omitempty"`
+	// Near: the first update, re-addressed by Pick to a stored leaf, carries the smallest change of the value stored
+	// there (next integer, one more digit of a decimal, next representable double / float, one more character).
+	Near bool `json:"near,omitempty"`
 	// Via>0: the notification (whose prefix names target T) is handed to the exported per-target entry point
 	// cache.GetTarget(<target (T+Via) mod n>).GnmiUpdate: it is stored in ANOTHER target's tree while every
 	// response built from it still names T. Scenarios with such a write are judged by the trace monitors only.
@@ -200,6 +203,10 @@ var richNames bool
 // point of another target than the one their prefix names (WOp.Via).
 var viaScenario bool
 
+// fineScenario: in one scenario out of ten most values are "fine" ones (large decimals and integers, doubles that
+// differ in their last bits, ...), so that the smallest change of a stored value (WOp.Near) meets them often.
+var fineScenario bool
+
 func siblingOdds() int {
 	if richNames {
 		return 3
@@ -239,11 +246,11 @@ func genElems(t *rapid.T, min, max int, glob bool) []gn.Elem {
 }
 
 func genVal(t *rapid.T) gn.Val {
-	if rapid.IntRange(0, 7).Draw(t, "fine-values") == 5 {
+	if (fineScenario && rapid.IntRange(0, 2).Draw(t, "fine-mostly") > 0) || rapid.IntRange(0, 7).Draw(t, "fine-values") == 5 {
 		// values that differ from their neighbours only beyond the precision of a float32 / float64, and the
 		// less common value types: "did the value change?" decides what an event-driven cache forwards
-		switch rapid.IntRange(0, 6).Draw(t, "fine-kind") {
-		case 0:
+		switch rapid.IntRange(0, 8).Draw(t, "fine-kind") {
+		case 0, 7, 8:
 			return gn.Val{Kind: "decimal", F: 2, I: rapid.SampledFrom([]int64{100000001, 100000002, 16777216, 16777217, 5}).Draw(t, "digits")}
 		case 1:
 			return gn.Val{Kind: rapid.SampledFrom([]string{"int", "uint"}).Draw(t, "bigkind"), I: rapid.SampledFrom([]int64{16777216, 16777217, 1 << 53, 1<<53 + 1}).Draw(t, "big")}
@@ -289,6 +296,7 @@ func genWOp(pr profile, targets int) func(t *rapid.T) *WOp {
 		w.Old = rapid.IntRange(0, 9).Draw(t, "old") == 0
 		if w.Pick > 0 {
 			w.Star = rapid.IntRange(0, 2).Draw(t, "star") == 0
+			w.Near = rapid.IntRange(0, 2).Draw(t, "near") > 0
 		}
 		if rapid.IntRange(0, 5).Draw(t, "backdated") == 0 {
 			w.Back = rapid.IntRange(1, 6).Draw(t, "back")
@@ -664,14 +672,16 @@ func genScenario(prop string) func(t *rapid.T) *Scenario {
 		if prop == "C08" {
 			switch shape := rapid.IntRange(0, 7).Draw(t, "structured"); {
 			case shape == 2:
-				richNames = false
+				richNames, fineScenario = false, false
 				return genPollFloodScenario(t)
 			case shape > 2:
 				richNames = false
+				fineScenario = rapid.IntRange(0, 9).Draw(t, "fine-scenario") == 4
 				return genBurstScenario(t)
 			}
 		}
 		richNames = rapid.IntRange(0, 2).Draw(t, "rich-names") == 0
+		fineScenario = rapid.IntRange(0, 9).Draw(t, "fine-scenario") == 4
 		viaScenario = pr.viaPct > 0 && rapid.IntRange(0, 99).Draw(t, "via-scenario") >= 100-pr.viaPct
 		var tnames []string
 		if rapid.IntRange(0, 5).Draw(t, "odd-target-names") == 0 {
